@@ -52,8 +52,8 @@ def emit(pairs):
             lines.append(f"Definition ca{k} : ctree expr := {H.ctree_to_coq(c['a'])}.")
             lines.append(f"Definition cb{k} : ctree expr := {H.ctree_to_coq(c['b'])}.")
             spec.append(f"check_ctree_pair {inex} {pts} ca{k} cb{k}")
-        else:
-            spec.append("[1%nat]")
+        elif c.get("exc") not in ("BartiqCompilationError", "BartiqPreprocessingError"):
+            spec.append("[1%nat]")     # (a routine bartiq refuses to compile has no compiled form to export)
         rc = imp["recompiled"]
         if rc.get("ok"):
             lines.append(f"Definition ra{k} : ctree expr := {H.ctree_to_coq(rc['a'])}.")
